@@ -797,6 +797,7 @@ package parse
 //@   props C05 C18
 //@   recoverby (*tree).recover
 //@   modifies *
+//@   preserves F!bufio.* E!Int G!github.com/robfig/soy/*
 //@   ghost lx *lexer = nil
 //@   at call parse.lexExpr#0 after set lx = res
 //@   ensures[scanner-finished;C18] lx != nil && lx.done
